@@ -3,6 +3,7 @@
 
 use crate::envx::*;
 use crate::report::Outcome;
+use crate::scriptrng::ScriptRng;
 use crate::scriptrng::Ans;
 use crate::snap::Snap;
 use serde_json::json;
@@ -211,6 +212,7 @@ pub fn c10(tier: &str) -> i32 {
     absorb_env(&mut out, &c, 1, 3, run_env::<1, 3>(&c), "env", false);
     let c = magnitude_cfg("MarketEnv<2,3>: volumes of 1e9..3e9", true, &[1, 2], s - 1, 2, &cl);
     absorb_env(&mut out, &c, 2, 3, run_env::<2, 3>(&c), "market-env", false);
+    scale_part(&mut out, t);
     // unbounded number of steps: three prices and unit volumes, so that a step can rearrange the
     // depth behind an unchanged touch; constructed with trading off, toggles between steps
     crate::envabs::run_env_closure(
@@ -294,6 +296,7 @@ pub fn c11(tier: &str) -> i32 {
     absorb_env(&mut out, &c, 1, 10, run_env::<1, 10>(&c), "env", false);
     let c = magnitude_cfg("Env<3>: volumes of 1e9..3e9, clock beyond 2^40, step size 2^33", false, &[1], s - 1, 3, &cl);
     absorb_env(&mut out, &c, 1, 3, run_env::<1, 3>(&c), "env", false);
+    scale_part(&mut out, t);
     // unbounded number of steps on one asset of a two-asset environment
     crate::envabs::run_env_closure(
         &mut out,
@@ -498,4 +501,162 @@ pub fn large_batches<const A: usize, const L: usize>(out: &mut Outcome, multi: b
     out.add_u64("transitions", steps);
     out.add_u64("traces_validated_against_impl", execs);
     out.push("runs", json!({"label": format!("large batches, schedule read from arrival stamps ({} assets)", A), "batch_sizes": sizes, "scripts_per_size": 8, "executions": execs}));
+}
+
+// ---------------------------------------------------------------------------------------
+// scale: environments that live for tens of thousands of steps, submission windows holding
+// thousands of instructions (thresholds a bounded scenario enumeration cannot reach)
+// ---------------------------------------------------------------------------------------
+
+fn l2_live<const A: usize, const L: usize>(env: &AnyEnv<A, L>, a: usize) -> (Vec<u32>, Vec<(u32, u32)>, Vec<(u32, u32)>) {
+    let b = env.book(a);
+    let d = b.level_2_data();
+    (vec![d.bid_price, d.ask_price, d.bid_vol, d.ask_vol], d.bid_price_levels.to_vec(), d.ask_price_levels.to_vec())
+}
+
+/// `steps` steps, each with at most one instruction (a placement behind or at the touch, or the
+/// cancellation of the oldest resting order), and a read of the handed-out snapshot and of the
+/// newest record after every step: both must equal the live book, every series must have one
+/// entry per step. (One mutation of the book per step: counters of steps, records or mutations
+/// pass 2^8, 2^12, 2^16 on the way.)
+fn long_lived<const A: usize>(multi: bool, steps: usize, read_every: usize) -> Result<u64, (String, String)> {
+    let bad = |c: &str, d: String| Err((c.to_string(), d));
+    let ticks = vec![1u32; A];
+    let mut env = AnyEnv::<A, 3>::make(multi, 0, &ticks, 10, true);
+    let a = A - 1;
+    let mut live: std::collections::VecDeque<usize> = Default::default();
+    for k in 0..steps {
+        match k % 4 {
+            0 | 1 => {
+                let bid = k % 8 < 4;
+                let price = if bid { 100 - (k % 3) as u32 } else { 110 + (k % 3) as u32 };
+                let id = env.place(a, bid, 1 + (k % 5) as u32, 7, Some(price)).map_err(|_| ("placement-refused".to_string(), format!("step {}", k)))?;
+                live.push_back(id.1);
+            }
+            2 => {
+                if let Some(id) = live.pop_front() {
+                    env.cancel(a, id);
+                }
+            }
+            _ => {}
+        }
+        let mut rng = ScriptRng::new(vec![], k as u64);
+        env.step(&mut rng);
+        if k % read_every != 0 && k + 300 < steps && !(k > 250 && k < 260) && !(k > 4090 && k < 4100) && !(k > 65_530 && k < 65_540) {
+            continue;
+        }
+        let obs = env.observe();
+        for x in 0..A {
+            let (head, bl, al) = l2_live(&env, x);
+            if obs[x].l2.head.to_vec() != head || obs[x].l2.bid != bl || obs[x].l2.ask != al {
+                return bad(
+                    "invisible/l2-snapshot-not-live-book",
+                    format!("after step {} (asset {}): the environment hands out {:?} {:?} {:?}, the live book says {:?} {:?} {:?}", k + 1, x, obs[x].l2.head, obs[x].l2.bid, obs[x].l2.ask, head, bl, al),
+                );
+            }
+            let r = &obs[x].rec;
+            let n = k + 1;
+            let lens = [r.prices.0.len(), r.prices.1.len(), r.volumes.0.len(), r.volumes.1.len(), r.trade_vols.len(), r.level_vols.0[2].len(), r.level_counts.1[0].len(), r.touch_vols.0.len(), r.touch_counts.1.len()];
+            if lens.iter().any(|l| *l != n) {
+                return bad("records/series-length", format!("after {} steps the series of asset {} have lengths {:?}", n, x, lens));
+            }
+            if r.prices.0[n - 1] != head[0] || r.prices.1[n - 1] != head[1] || r.volumes.0[n - 1] != head[2] || r.volumes.1[n - 1] != head[3] || r.level_vols.0[1][n - 1] != bl[1].0 || r.level_counts.1[2][n - 1] != al[2].1 {
+                return bad("records/series-last-entry", format!("after step {} the newest record of asset {} differs from the live book {:?} {:?} {:?}", n, x, head, bl, al));
+            }
+        }
+    }
+    Ok(steps as u64)
+}
+
+/// `n` instructions submitted between two steps (placements that would trade, cancellations and
+/// re-pricings of resting orders): nothing observable may change before the step, and the step
+/// applies all of them.
+fn huge_window<const A: usize>(multi: bool, n: usize) -> Result<u64, (String, String)> {
+    let bad = |c: &str, d: String| Err((c.to_string(), d));
+    let ticks = vec![1u32; A];
+    let mut env = AnyEnv::<A, 3>::make(multi, 0, &ticks, 1_000_000, true);
+    let mut resting = Vec::new();
+    for a in 0..A {
+        resting.push(env.place(a, false, 5, 7, Some(105)).map_err(|_| ("setup".to_string(), String::new()))?);
+        resting.push(env.place(a, true, 5, 7, Some(95)).map_err(|_| ("setup".to_string(), String::new()))?);
+    }
+    let mut rng = ScriptRng::new(vec![], 1);
+    env.step(&mut rng);
+    let digest = |env: &AnyEnv<A, 3>| -> Vec<(Vec<u32>, Vec<(u32, u32)>, Vec<(u32, u32)>, usize, u32, usize)> {
+        (0..A)
+            .map(|x| {
+                let (h, b, a) = l2_live(env, x);
+                let bk = env.book(x);
+                (h, b, a, bk.get_trades().len(), bk.get_trade_vol(), bk.get_orders().iter().filter(|o| o.status != bourse_book::types::Status::New).count())
+            })
+            .collect()
+    };
+    let d0 = digest(&env);
+    let obs0 = env.observe();
+    for k in 0..n {
+        let a = k % A;
+        match k % 5 {
+            0 => {
+                // would trade at once if applied directly
+                env.place(a, true, 1, 8, Some(105)).map_err(|_| ("placement-refused".to_string(), format!("submission {}", k)))?;
+            }
+            1 => {
+                env.place(a, false, 1, 8, None).map_err(|_| ("placement-refused".to_string(), format!("submission {}", k)))?;
+            }
+            2 => env.cancel(resting[2 * a].0, resting[2 * a].1),
+            3 => env.modify(resting[2 * a + 1].0, resting[2 * a + 1].1, Some(105), None),
+            _ => {
+                env.place(a, true, 2, 8, Some(90)).map_err(|_| ("placement-refused".to_string(), format!("submission {}", k)))?;
+            }
+        }
+        if digest(&env) != d0 {
+            return bad("invisible/book-changed-by-submission", format!("submission {} of {} between two steps changed the live book: {:?} -> {:?}", k + 1, n, d0, digest(&env)));
+        }
+    }
+    let obs1 = env.observe();
+    for x in 0..A {
+        if obs1[x].l2 != obs0[x].l2 || obs1[x].rec != obs0[x].rec {
+            return bad("invisible/snapshot-or-records-changed-by-submission", format!("asset {} after {} submissions", x, n));
+        }
+    }
+    let mut rng = ScriptRng::new(vec![], 2);
+    env.step(&mut rng);
+    for x in 0..A {
+        let bk = env.book(x);
+        let unplaced = bk.get_orders().iter().filter(|o| o.status == bourse_book::types::Status::New).count();
+        if unplaced != 0 {
+            return bad("sched/instruction-not-applied", format!("after the step {} orders of asset {} are still unplaced ({} instructions were queued)", unplaced, x, n));
+        }
+    }
+    Ok(n as u64)
+}
+
+pub fn scale_part(out: &mut Outcome, t: bool) {
+    let mut ops = 0u64;
+    let mut runs = 0u64;
+    let steps = if t { 140_000 } else { 70_000 };
+    let mut go = |label: String, r: Result<Result<u64, (String, String)>, String>, out: &mut Outcome| {
+        runs += 1;
+        let replay = json!({"engine": "envprops/scale", "scenario": label});
+        match r {
+            Ok(Ok(k)) => ops += k,
+            Ok(Err((c, d))) => out.fail_other(&format!("env-scale/{}", c), d, replay),
+            Err(m) => out.fail_other(&format!("env-scale/panic/{}", crate::util::panic_sig(&m)), m, replay),
+        }
+    };
+    go(format!("Env<3> living for {} steps, one instruction per step", steps), crate::util::subject(|| long_lived::<1>(false, steps, 997)), out);
+    go(format!("MarketEnv<2,3> living for {} steps", steps), crate::util::subject(|| long_lived::<2>(true, steps, 997)), out);
+    for n in [300usize, 4_100, 9_000] {
+        go(format!("Env<3>: {} instructions submitted between two steps", n), crate::util::subject(|| huge_window::<1>(false, n)), out);
+        go(format!("MarketEnv<2,3>: {} instructions submitted between two steps", n), crate::util::subject(|| huge_window::<2>(true, n)), out);
+    }
+    out.add_u64("states", runs);
+    out.add_u64("transitions", ops);
+    out.add_u64("traces_validated_against_impl", runs);
+    out.push(
+        "runs",
+        json!({"engine": "envprops/scale (scripted long histories through the real environments)", "label": "environments living for tens of thousands of steps; thousands of instructions in one submission window",
+               "steps": steps, "window_sizes": [300, 4100, 9000], "operations_executed": ops,
+               "oracle": "handed-out snapshot and newest record = live book (read every 997 steps and around steps 2^8, 2^12, 2^16 and at the end), one entry per step in every series; no submission changes the live book, snapshot or records; the step leaves no order unplaced"}),
+    );
 }
